@@ -62,6 +62,30 @@ def obs(fn, *a):
     if isinstance(r, tuple) and len(r) == 2 and isinstance(r[1], bool) and fn.startswith("d"):
         return json.dumps(["v", repr(_norm(r[0])), r[1], list(_hooks)])
     return json.dumps(["v", repr(_norm(r)), None, list(_hooks)])
+def obs_risky(fn, *a):
+    # a call that may kill the process runs in a forked copy of the driver; death by signal is the observation
+    import os
+    sys.stdout.flush()
+    r, w = os.pipe()
+    pid = os.fork()
+    if pid == 0:
+        try:
+            os.close(r)
+            os.write(w, obs(fn, *a).encode())
+        finally:
+            os._exit(0)
+    os.close(w)
+    data = b""
+    while True:
+        chunk = os.read(r, 65536)
+        if not chunk:
+            break
+        data += chunk
+    os.close(r)
+    _, status = os.waitpid(pid, 0)
+    if os.WIFSIGNALED(status):
+        return "CRASH:%d" % os.WTERMSIG(status)
+    return data.decode() if data else "CRASH:exit%d" % os.WEXITSTATUS(status)
 '''
 
 
